@@ -253,3 +253,329 @@ Example C12_str_load_oversize_refuted :
   | Err _ => false
   end = true.
 Proof. split; [exact exBig_ok | vm_compute; reflexivity]. Qed.
+
+(* ================================================================== *)
+(* The whole mapping API of Blocks (the methods Blocks defines and the collections.abc.MutableMapping mixins built on
+   them: update, setdefault, pop, popitem, clear; Model/BlocksApi.v).  Whatever a caller does through that API, the
+   object holds only 2-character alphanumeric ids with printable ASCII data, unique ids - the invariant the framing
+   theorems above start from.  Strings are lists of code points: "KS" = [75;83], "KP" = [75;80], "TS" = [84;83],
+   "PB" = [80;66], "K!" = [75;33], "12" = [49;50]. *)
+From Psec Require Import Proofs.Tr31SafetyLoad Proofs.Tr31Loaded Model.BlocksApi Proofs.BlocksApiLemmas.
+
+(* ---------------- (a) every reachable Blocks object ---------------- *)
+Theorem C12_api_step_wf : forall d op,
+  Forall entry_wf d -> Forall entry_wf (fst (api_step d op)).
+Proof. exact api_step_wf. Qed.
+Print Assumptions C12_api_step_wf.
+
+Theorem C12_api_step_nodup : forall d op,
+  NoDup (map fst d) -> NoDup (map fst (fst (api_step d op))).
+Proof. exact api_step_nodup. Qed.
+Print Assumptions C12_api_step_nodup.
+
+Theorem C12_api_run_wf : forall ops d,
+  Forall entry_wf d -> Forall entry_wf (fst (api_run d ops)).
+Proof. exact api_run_wf. Qed.
+Print Assumptions C12_api_run_wf.
+
+Theorem C12_api_run_nodup : forall ops d,
+  NoDup (map fst d) -> NoDup (map fst (fst (api_run d ops))).
+Proof. exact api_run_nodup. Qed.
+Print Assumptions C12_api_run_nodup.
+
+(* Blocks() and then any calls: valid ids, printable data, distinct ids *)
+Theorem C12_api_reachable : forall ops,
+  Forall entry_wf (fst (api_run [] ops)) /\ NoDup (map fst (fst (api_run [] ops))).
+Proof. exact api_reachable. Qed.
+Print Assumptions C12_api_reachable.
+
+(* ---------------- (b) exceptions ---------------- *)
+Theorem C12_api_step_errors : forall d op e, snd (api_step d op) = AoErr e ->
+  (e = HeaderError /\ match op with ASetItem _ _ | AUpdate _ | ASetDefault _ _ => True | _ => False end) \/
+  (e = Crash CKey /\ match op with ADelItem _ | APop _ | AGetItem _ | APopItem => True | _ => False end).
+Proof. exact api_step_errors. Qed.
+Print Assumptions C12_api_step_errors.
+
+Theorem C12_api_setitem_error_iff : forall d id v,
+  snd (api_step d (ASetItem id v)) = AoErr HeaderError <->
+  ~ (length id = 2%nat /\ ascii_alphanumeric id = true /\ ascii_printable v = true).
+Proof. exact setitem_error_iff. Qed.
+Print Assumptions C12_api_setitem_error_iff.
+
+Theorem C12_api_setitem_ok_iff : forall d id v,
+  snd (api_step d (ASetItem id v)) = AoNone <->
+  length id = 2%nat /\ ascii_alphanumeric id = true /\ ascii_printable v = true.
+Proof. exact setitem_ok_iff. Qed.
+Print Assumptions C12_api_setitem_ok_iff.
+
+Theorem C12_api_update_error_iff : forall d kvs,
+  snd (api_step d (AUpdate kvs)) = AoErr HeaderError <->
+  Exists (fun kv => ~ (length (fst kv) = 2%nat /\ ascii_alphanumeric (fst kv) = true /\
+                       ascii_printable (snd kv) = true)) kvs.
+Proof. exact update_error_iff. Qed.
+Print Assumptions C12_api_update_error_iff.
+
+Theorem C12_api_update_ok_iff : forall d kvs,
+  snd (api_step d (AUpdate kvs)) = AoNone <->
+  Forall (fun kv => length (fst kv) = 2%nat /\ ascii_alphanumeric (fst kv) = true /\
+                    ascii_printable (snd kv) = true) kvs.
+Proof. exact update_ok_iff. Qed.
+Print Assumptions C12_api_update_ok_iff.
+
+Theorem C12_api_setdefault_error_iff : forall d id v,
+  snd (api_step d (ASetDefault id v)) = AoErr HeaderError <->
+  dict_mem id d = false /\
+  ~ (length id = 2%nat /\ ascii_alphanumeric id = true /\ ascii_printable v = true).
+Proof. exact setdefault_error_iff. Qed.
+Print Assumptions C12_api_setdefault_error_iff.
+
+Theorem C12_api_key_error_iff : forall d id,
+  (snd (api_step d (ADelItem id)) = AoErr (Crash CKey) <-> dict_mem id d = false) /\
+  (snd (api_step d (APop id)) = AoErr (Crash CKey) <-> dict_mem id d = false) /\
+  (snd (api_step d (AGetItem id)) = AoErr (Crash CKey) <-> dict_mem id d = false) /\
+  (snd (api_step d APopItem) = AoErr (Crash CKey) <-> d = []).
+Proof.
+  exact (fun d id => conj (delitem_error_iff d id) (conj (pop_error_iff d id)
+           (conj (getitem_error_iff d id) (popitem_error_iff d)))).
+Qed.
+Print Assumptions C12_api_key_error_iff.
+
+Theorem C12_api_mem_is_in : forall k d, dict_mem k d = true <-> In k (map fst d).
+Proof. exact dict_mem_in. Qed.
+Print Assumptions C12_api_mem_is_in.
+
+Theorem C12_api_total_ops : forall d op e,
+  match op with AClear | AContains _ | ALen => True | _ => False end ->
+  snd (api_step d op) <> AoErr e.
+Proof. exact total_ops_no_error. Qed.
+Print Assumptions C12_api_total_ops.
+
+(* a call that raises leaves the object as it was, update excepted *)
+Theorem C12_api_error_unchanged : forall d op e, snd (api_step d op) = AoErr e ->
+  (forall kvs, op <> AUpdate kvs) -> fst (api_step d op) = d.
+Proof. exact api_step_error_unchanged. Qed.
+Print Assumptions C12_api_error_unchanged.
+
+(* ---------------- (c) update ---------------- *)
+Theorem C12_api_update_is_fold : forall kvs d,
+  api_step d (AUpdate kvs) =
+  fold_left (fun (st : dict * api_out) kv =>
+               match snd st with
+               | AoNone => match blocks_setitem (fst kv) (snd kv) (fst st) with
+                           | Ok d' => (d', AoNone)
+                           | Err e => (fst st, AoErr e)
+                           end
+               | _ => st
+               end) kvs (d, AoNone).
+Proof. exact update_is_fold. Qed.
+Print Assumptions C12_api_update_is_fold.
+
+Theorem C12_api_update_all_valid : forall kvs d,
+  Forall (fun kv => length (fst kv) = 2%nat /\ ascii_alphanumeric (fst kv) = true /\
+                    ascii_printable (snd kv) = true) kvs ->
+  api_step d (AUpdate kvs) =
+  (fold_left (fun d kv => dict_set (fst kv) (snd kv) d) kvs d, AoNone).
+Proof. exact update_all_valid. Qed.
+Print Assumptions C12_api_update_all_valid.
+
+(* the assignments before the first invalid pair persist; the rest is not reached *)
+Theorem C12_api_update_first_invalid : forall good bad rest d,
+  Forall (fun kv => length (fst kv) = 2%nat /\ ascii_alphanumeric (fst kv) = true /\
+                    ascii_printable (snd kv) = true) good ->
+  ~ (length (fst bad) = 2%nat /\ ascii_alphanumeric (fst bad) = true /\
+     ascii_printable (snd bad) = true) ->
+  api_step d (AUpdate (good ++ bad :: rest)) =
+  (fold_left (fun d kv => dict_set (fst kv) (snd kv) d) good d, AoErr HeaderError).
+Proof. exact update_first_invalid. Qed.
+Print Assumptions C12_api_update_first_invalid.
+
+(* ---------------- (d) setdefault ---------------- *)
+(* v is arbitrary - also invalid: it is neither validated nor stored *)
+Theorem C12_api_setdefault_existing : forall d id v, dict_mem id d = true ->
+  exists s, dict_get id d = Some s /\ In (id, s) d /\
+            api_step d (ASetDefault id v) = (d, AoStr s).
+Proof. exact setdefault_existing. Qed.
+Print Assumptions C12_api_setdefault_existing.
+
+Theorem C12_api_setdefault_missing : forall d id v, dict_mem id d = false ->
+  api_step d (ASetDefault id v) =
+  match api_step d (ASetItem id v) with
+  | (d', AoNone) => (d', AoStr v)
+  | r => r
+  end.
+Proof. exact setdefault_missing. Qed.
+Print Assumptions C12_api_setdefault_missing.
+
+(* ---------------- (e) pop, popitem, clear ---------------- *)
+Theorem C12_api_pop_is_get_then_del : forall d id,
+  api_step d (APop id) =
+  match snd (api_step d (AGetItem id)) with
+  | AoStr v => (fst (api_step d (ADelItem id)), AoStr v)
+  | o => (d, o)
+  end.
+Proof. exact pop_is_get_then_del. Qed.
+Print Assumptions C12_api_pop_is_get_then_del.
+
+(* no premise: NoDup of the ids is not needed *)
+Theorem C12_api_popitem_first : forall k v r,
+  api_step ((k, v) :: r) APopItem = (r, AoPair k v).
+Proof. exact popitem_first. Qed.
+Print Assumptions C12_api_popitem_first.
+
+Theorem C12_api_clear_empties : forall d,
+  fst (api_step d AClear) = [] /\ snd (api_step d AClear) = AoNone /\
+  api_step (fst (api_step d AClear)) APopItem = ([], AoErr (Crash CKey)).
+Proof. exact (fun d => conj (clear_empties d) (conj (clear_returns_none d) (clear_exit d))). Qed.
+Print Assumptions C12_api_clear_empties.
+
+(* any fuel >= len(self) gives the same result: the loop is not cut short *)
+Theorem C12_api_clear_fuel : forall n d, (length d <= n)%nat ->
+  api_clear_loop n d = api_step d AClear.
+Proof. exact clear_fuel_enough. Qed.
+Print Assumptions C12_api_clear_fuel.
+
+(* ---------------- (f) order ---------------- *)
+Theorem C12_api_setitem_existing_order : forall d id v,
+  length id = 2%nat /\ ascii_alphanumeric id = true /\ ascii_printable v = true ->
+  dict_mem id d = true ->
+  exists l1 old l2, d = l1 ++ (id, old) :: l2 /\ ~ In id (map fst l1) /\
+    api_step d (ASetItem id v) = (l1 ++ (id, v) :: l2, AoNone) /\
+    map fst (fst (api_step d (ASetItem id v))) = map fst d.
+Proof. exact setitem_existing_order. Qed.
+Print Assumptions C12_api_setitem_existing_order.
+
+Theorem C12_api_setitem_new_appends : forall d id v,
+  length id = 2%nat /\ ascii_alphanumeric id = true /\ ascii_printable v = true ->
+  dict_mem id d = false ->
+  api_step d (ASetItem id v) = (d ++ [(id, v)], AoNone).
+Proof. exact setitem_new_appends. Qed.
+Print Assumptions C12_api_setitem_new_appends.
+
+Theorem C12_api_delitem_order : forall d id, dict_mem id d = true ->
+  exists l1 v l2, d = l1 ++ (id, v) :: l2 /\ ~ In id (map fst l1) /\
+    api_step d (ADelItem id) = (l1 ++ l2, AoNone) /\
+    api_step d (APop id) = (l1 ++ l2, AoStr v).
+Proof. exact delitem_order. Qed.
+Print Assumptions C12_api_delitem_order.
+
+Theorem C12_api_delitem_filter : forall d id, NoDup (map fst d) -> dict_mem id d = true ->
+  fst (api_step d (ADelItem id)) = filter (fun kv => negb (list_eqb id (fst kv))) d /\
+  fst (api_step d (APop id)) = filter (fun kv => negb (list_eqb id (fst kv))) d /\
+  dict_mem id (fst (api_step d (ADelItem id))) = false.
+Proof. exact delitem_filter. Qed.
+Print Assumptions C12_api_delitem_filter.
+
+(* ---------------- (g) the header ---------------- *)
+Theorem C12_api_header_wf : forall h ops, header_wf h ->
+  header_wf (set_blocks h (fst (api_run (blocks h) ops))).
+Proof. exact api_run_header_wf. Qed.
+Print Assumptions C12_api_header_wf.
+
+(* header_ok's entries exclude pad ids, which __setitem__ accepts *)
+Theorem C12_api_header_ok : forall h ops, Forall (fun op => op_pad_free op = true) ops ->
+  header_ok h -> header_ok (set_blocks h (fst (api_run (blocks h) ops))).
+Proof. exact api_run_header_ok. Qed.
+Print Assumptions C12_api_header_ok.
+
+(*  forall h ops, header_ok h -> header_ok (set_blocks h (fst (api_run (blocks h) ops)))
+    is false: *)
+Example C12_api_header_ok_no_premise_refuted :
+  exists h ops, header_ok h /\
+    header_wf (set_blocks h (fst (api_run (blocks h) ops))) /\
+    ~ header_ok (set_blocks h (fst (api_run (blocks h) ops))).
+Proof. exact header_ok_pad_premise_needed. Qed.
+
+(*  delitem_filter without NoDup is false (on dicts no call sequence reaches) *)
+Example C12_api_delitem_filter_no_nodup_refuted :
+  exists d id, dict_mem id d = true /\
+    fst (api_step d (ADelItem id)) <> filter (fun kv => negb (list_eqb id (fst kv))) d.
+Proof. exact delitem_filter_needs_nodup. Qed.
+
+(* ---------------- examples ---------------- *)
+Definition KS : str := [75; 83].
+Definition KP : str := [75; 80].
+Definition TS : str := [84; 83].
+Definition PB : str := [80; 66].
+Definition bad_id : str := [75; 33].       (* "K!" *)
+Definition nl : str := [10].                (* "\n": not printable *)
+Definition s12 : str := [49; 50].
+Definition s34 : str := [51; 52].
+Definition s56 : str := [53; 54].
+
+(* update with an invalid pair in the middle: the first pair stays, HeaderError,
+   the third pair is not assigned *)
+Example ex_update_invalid_middle :
+  api_step [] (AUpdate [(KS, s12); (bad_id, s34); (KP, s56)]) = ([(KS, s12)], AoErr HeaderError).
+Proof. vm_compute. reflexivity. Qed.
+
+Example ex_update_invalid_data_middle :
+  api_step [(TS, s56)] (AUpdate [(KS, s12); (TS, s34); (KP, nl); (KP, s56)])
+  = ([(TS, s34); (KS, s12)], AoErr HeaderError).
+Proof. vm_compute. reflexivity. Qed.
+
+Example ex_update_all_valid :
+  api_step [(TS, s56)] (AUpdate [(KS, s12); (TS, s34); (KS, s56)])
+  = ([(TS, s34); (KS, s56)], AoNone).
+Proof. vm_compute. reflexivity. Qed.
+
+(* setdefault on an existing id with invalid data: the default is not validated,
+   no error, nothing changes *)
+Example ex_setdefault_existing_invalid :
+  api_step [(KS, s12)] (ASetDefault KS nl) = ([(KS, s12)], AoStr s12).
+Proof. vm_compute. reflexivity. Qed.
+
+Example ex_setdefault_missing_invalid :
+  api_step [(KS, s12)] (ASetDefault KP nl) = ([(KS, s12)], AoErr HeaderError).
+Proof. vm_compute. reflexivity. Qed.
+
+Example ex_setdefault_missing_valid :
+  api_step [(KS, s12)] (ASetDefault KP s34) = ([(KS, s12); (KP, s34)], AoStr s34).
+Proof. vm_compute. reflexivity. Qed.
+
+(* popitem: first in insertion order (FIFO - unlike dict.popitem, which is LIFO) *)
+Example ex_popitem_order :
+  api_run [(KS, s12); (KP, s34); (TS, s56)] [APopItem; APopItem; APopItem; APopItem]
+  = ([], [AoPair KS s12; AoPair KP s34; AoPair TS s56; AoErr (Crash CKey)]).
+Proof. vm_compute. reflexivity. Qed.
+
+Example ex_clear :
+  api_run [(KS, s12); (KP, s34); (TS, s56)] [ALen; AClear; ALen; AClear]
+  = ([], [AoNat 3; AoNone; AoNat 0; AoNone]).
+Proof. vm_compute. reflexivity. Qed.
+
+(* all ops *)
+Example ex_mixed :
+  api_run []
+    [ ASetItem KS s12;                  (* {KS:12} *)
+      ASetItem bad_id s12;              (* HeaderError *)
+      AUpdate [(KP, s34); (TS, s56)];   (* {KS:12, KP:34, TS:56} *)
+      ASetItem KS s56;                  (* in place: {KS:56, KP:34, TS:56} *)
+      ASetDefault KP nl;                (* "34", no validation *)
+      ASetDefault PB [];                (* appended: PB is alphanumeric *)
+      AContains PB; ALen;
+      APop KP;                          (* "34" *)
+      APop KP;                          (* KeyError *)
+      ADelItem PB; ADelItem PB;         (* None, KeyError *)
+      AGetItem TS; AGetItem KP;         (* "56", KeyError *)
+      APopItem;                         (* (KS, 56) *)
+      AUpdate [(KS, s12); (KP, nl)];    (* KS appended after TS, then HeaderError *)
+      AContains KP; ALen; AClear; ALen; APopItem ]
+  = ([], [ AoNone; AoErr HeaderError; AoNone; AoNone; AoStr s34; AoStr []; AoBool true; AoNat 4;
+           AoStr s34; AoErr (Crash CKey); AoNone; AoErr (Crash CKey); AoStr s56; AoErr (Crash CKey);
+           AoPair KS s56; AoErr HeaderError; AoBool false; AoNat 2; AoNone; AoNat 0;
+           AoErr (Crash CKey) ]).
+Proof. vm_compute. reflexivity. Qed.
+
+Example ex_mixed_state_before_clear :
+  fst (api_run []
+    [ ASetItem KS s12; AUpdate [(KP, s34); (TS, s56)]; ASetItem KS s56; APop KP; APopItem;
+      AUpdate [(KS, s12); (KP, nl)] ])
+  = [(TS, s56); (KS, s12)].
+Proof. vm_compute. reflexivity. Qed.
+
+(* the premises of the implications are satisfiable *)
+Example ex_header_ok_premise :
+  header_ok default_header /\
+  Forall (fun op => op_pad_free op = true)
+    [ASetItem KS s12; AUpdate [(KP, s34)]; ASetDefault TS s56; APopItem; AClear].
+Proof. split; [exact Proofs.Tr31Safety.default_header_ok | repeat constructor]. Qed.
